@@ -157,11 +157,15 @@ def run_and_validate(chk, harness, header, execs, module, cfg, nproc=None, timeo
     return acc, [r for (_p, r) in rej], nev
 
 
-def confirm(chk, harness, header, rej, module, cfg, timeout=300, env=None, extra_args=(), tlc_env=None):
-    """Verdict rule 2: the saved script must reproduce the rejection when run alone."""
-    acc, rejs, _ = run_and_validate(chk, harness, header, [rej.lines], module, cfg, nproc=1, timeout=timeout,
-                                    env=env, extra_args=extra_args, tlc_env=tlc_env, tag="confirm")
-    return len(rejs) == 1
+def confirm(chk, harness, header, rej, module, cfg, timeout=300, env=None, extra_args=(), tlc_env=None, tries=1):
+    """Verdict rule 2: the saved script must reproduce the rejection when run alone.  Where the outcome depends on the
+    OS schedule (threads) the script is re-run up to `tries` times and one further rejection confirms."""
+    for t in range(tries):
+        acc, rejs, _ = run_and_validate(chk, harness, header, [rej.lines], module, cfg, nproc=1, timeout=timeout,
+                                        env=env, extra_args=extra_args, tlc_env=tlc_env, tag="confirm%d" % t)
+        if len(rejs) == 1:
+            return True
+    return False
 
 
 class Campaign:
@@ -178,6 +182,7 @@ class Campaign:
         self.events = 0
         self.pending = []          # (exec_lines, events, (header, origin))
         self.rejections = []       # (header, Rejection, origin)
+        self.confirm_tries = 1
 
     def enough(self):
         return len(self.rejections) >= 3
@@ -234,7 +239,7 @@ class Campaign:
                 continue
             reported.add(sig)
             if not confirm(chk, getattr(rej, "harness", self.harness), hdr, rej, self.module, self.cfg, env=self.env,
-                           extra_args=self.extra_args, tlc_env=self.tlc_env):
+                           extra_args=self.extra_args, tlc_env=self.tlc_env, tries=self.confirm_tries):
                 raise vlib.ToolError("rejection from %s did not reproduce; not reported as a violation\n%s" %
                                      (origin, "\n".join(hdr + rej.lines)[-1500:]))
             fid = known(rej, ev) if known else None
@@ -249,13 +254,16 @@ class Campaign:
         return n
 
 
-def replay_file(chk, harness, path, module, cfg, header_words, env=None, tlc_env=None, extra_args=()):
+def replay_file(chk, harness, path, module, cfg, header_words, env=None, tlc_env=None, extra_args=(), tries=1):
     """--replay: run a saved script alone; prints the verdict."""
     lines = [l for l in open(path).read().splitlines() if l.strip()]
     hdr = [l for l in lines if l.split()[0] in header_words]
     body = [l for l in lines if l.split()[0] not in header_words]
-    acc, rej, nev = run_and_validate(chk, harness, hdr, [body], module, cfg, nproc=1, env=env, tlc_env=tlc_env,
-                                     extra_args=extra_args, tag="replay")
+    for t in range(tries):
+        acc, rej, nev = run_and_validate(chk, harness, hdr, [body], module, cfg, nproc=1, env=env, tlc_env=tlc_env,
+                                         extra_args=extra_args, tag="replay%d" % t)
+        if rej:
+            break
     for r in rej:
         print("replay: %s at event %d: %s" % (r.why, r.event_index, json.dumps(r.failing_event())[:1200]))
         print("VIOLATION property=%s replay=%s" % (chk.pid, path))
